@@ -275,7 +275,7 @@ class History:
 
         def others(s):
             return {k: (v[:3] + v[4:] if v[0] == "dir" else v) for k, v in s.items()
-                    if k not in ignore and not k.startswith(P.tmp)}
+                    if k not in ignore and not k.startswith(P.tmp) and not k.startswith(P.lock_path)}
         o0, o1 = others(snap0), others(snap1)
         # directory mtimes change when entries are renamed into them; compare without dir mtimes
         others_same = (o0 == o1)
@@ -352,7 +352,8 @@ class History:
         def classify(path):
             if path == P.config_path:
                 return "cfg", 0
-            if path == P.lock_path:
+            if path == P.lock_path or (path.startswith(P.lock_path) and os.path.dirname(path) == os.path.dirname(P.lock_path)):
+                # the lock file or a scratch sibling of it (an implementation may write the lock through a temporary name)
                 return "lock", 0
             if path in src_paths:
                 return "src", src_paths[path]
